@@ -472,5 +472,32 @@ def r19_8(ctx):
              "not only on the project markers", f.loc(bad[0])) if bad else ctx.ok(construct, f.loc(loops[0]), exits=len(exits)))
 
 
+def r19_9(ctx):
+    """R19.9 an explicitly passed rename file is a source of names whatever its target suffix: the test by which
+    _prepare_deprecated_options() tells rename files from files to check, folded for the paths `/p/sdkconfig.rename`,
+    `/p/sdkconfig.rename.esp32` (rename files) and `/p/sdkconfig.defaults`, `/p/sdkconfig.ci.x` (files to check), classifies them so -
+    a target-specific rename file that is *checked* instead is reported OK and its names are never applied to the defaults files."""
+    from ..foldcheck import Unfoldable, fold_str_expr
+    from .common import expand_locals
+    repo = ctx.repo
+    f = repo.func(f"{MOD}:_prepare_deprecated_options")
+    ctx.analysed(f.qual)
+    tests = [(lp, n) for lp in ast.walk(f.node) if isinstance(lp, ast.For) and isinstance(lp.target, ast.Name) for n in lp.body
+             if isinstance(n, ast.If) and any(isinstance(c, ast.Call) and ast.unparse(c.func).endswith("files.remove") for c in ast.walk(n))]
+    if not tests:
+        raise AnchorError("_prepare_deprecated_options: the explicit-rename-file arm was not found")
+    lp, arm = tests[0]
+    test = ast.parse(expand_locals(f.node, arm.test), mode="eval").body
+    for w, want in (("/p/sdkconfig.rename", True), ("/p/sdkconfig.rename.esp32", True), ("/p/sdkconfig.defaults", False), ("/p/sdkconfig.ci.x", False)):
+        construct = f"_prepare_deprecated_options/explicit file `{w}` is {'a rename file' if want else 'a file to check'}"
+        try:
+            got = bool(fold_str_expr(test, {lp.target.id: w}))
+        except Unfoldable as e:
+            raise AnalysisError(f"_prepare_deprecated_options: test `{ast.unparse(test)[:60]}` cannot be folded ({e})")
+        (ctx.ok(construct, f.loc(arm)) if got == want else
+         ctx.bad(construct, f"`{ast.unparse(test)[:60]}` is {got} for it: " + ("its old names are not applied, and it is checked as if it were a defaults file"
+                                                                            if want else "it is taken for a rename file and never checked"), f.loc(arm)))
+
+
 def rules():
-    return [("R19.8", r19_8, 2), ("R19.7", r19_7, 3), ("R19.6", r19_6, 1), ("R19.1", r19_1, 3), ("R19.2", r19_2, 7), ("R19.3", r19_3, 4), ("R19.4", r19_4, 3), ("R19.5", r19_5, 8)]
+    return [("R19.9", r19_9, 4), ("R19.8", r19_8, 2), ("R19.7", r19_7, 3), ("R19.6", r19_6, 1), ("R19.1", r19_1, 3), ("R19.2", r19_2, 7), ("R19.3", r19_3, 4), ("R19.4", r19_4, 3), ("R19.5", r19_5, 8)]
